@@ -79,8 +79,8 @@ class _TRSTractList:
         return obj
 
     def __setitem__(self, index, value):
-        self._verify_individual(value)
-        self._elements[index] = value
+        # (A `TRSList` converts strings and tracts to `TRS` objects.)
+        self._elements[index] = self._verify_individual(value)
 
     def __getitem__(self, item):
         return self._elements[item]
